@@ -1,3 +1,6 @@
+(** C06 -- the [hard] value iterativeDeepening derives from the node fraction of the best move
+    (piecewise linear, four double operations per interpolation piece) is finite and within
+    [0,4] for EVERY double, including NaN and infinities.  Enclosures by multiples of 1/64. *)
 From Coq Require Import ZArith Reals Lia Lra Floats Uint63 Bool.
 From Flocq Require Import Core.Core IEEE754.BinarySingleNaN IEEE754.PrimFloat.
 From Texel Require Import TimeMgmt.TimeMgmt TimeMgmt.TimeSpec TimeMgmt.FloatFacts.
